@@ -3,7 +3,7 @@
    fault plans, modes), fuels, environment definitions and — where a start state appears — all states. *)
 From Verif Require Import Base.Bytes Model.Chain Model.GoText Model.Envelope Model.Eval Corr.EvalWire.
 From Verif Require Import Proofs.EvalLogKit Proofs.EvalLogInd Proofs.EvalLog Proofs.EvalLogOnce Proofs.EvalLogLoad
-                          Proofs.EvalLogCorr.
+                          Proofs.EvalLogCorr Proofs.EvalLogRootName.
 From Verif Require Corr.C05.
 
 (* ---- open_only_when_opening: never while only checking ---- *)
@@ -23,12 +23,16 @@ Proof. exact check_no_open. Qed.
 (* ---- open_inputs_known_valid_exact ---- *)
 (* every Open in the log of a run: the provider exists; the inputs are the export of a chain [iv] that has no
    unknown part and validates against the provider's declared input schema; they are an object; the run is not
-   a check; [c] is the environment named in the expression id, [r] the root environment *)
+   a check; [c] is the environment named in the expression id, [r] the root environment.
+   Root names: environment.go CopyForEnv treats "" AND "<yaml>" (esc.AnonymousEnvironmentName) as anonymous and
+   replaces them by the name of the environment being entered; Model/Eval.v replaces only "".  The clause is therefore
+   stated for roots that are neither (for "<yaml>" the model deviates from the code: C05_yaml_root_model_deviation,
+   measured on every run by the `yaml_root` family of the correspondence). *)
 Theorem C05_open_inputs_ok : forall fuel W name d id p xin r c,
   In (EvOpen id p xin r c) (ob_log (run fuel W name d)) ->
   w_check W = false
   /\ c = fst id
-  /\ (name <> "" -> r = name)
+  /\ (name <> "" -> name <> "<yaml>" -> r = name)
   /\ exists pv iv,
        alookup p (w_provs W) = Some pv
        /\ export big_fuel iv = Some xin
@@ -36,14 +40,14 @@ Theorem C05_open_inputs_ok : forall fuel W name d id p xin r c,
        /\ x_has_unknown xin = false
        /\ fst (validate (AccIn (pv_in pv)) iv) = true
        /\ x_is_obj xin = true.
-Proof. exact run_open_inputs_ok. Qed.
+Proof. exact run_open_inputs_ok_named. Qed.
 
 (* [eval_env] with an explicit root, as imports call it *)
 Theorem C05_open_inputs_ok_env : forall W fuel root name d id p xin r c,
   In (EvOpen id p xin r c) (log (snd (eval_env W fuel root name d st0))) ->
   w_check W = false
   /\ c = fst id
-  /\ (eff_root root name <> "" -> r = eff_root root name)
+  /\ (eff_root root name <> "" -> eff_root root name <> "<yaml>" -> r = eff_root root name)
   /\ exists pv iv,
        alookup p (w_provs W) = Some pv
        /\ export big_fuel iv = Some xin
@@ -51,7 +55,14 @@ Theorem C05_open_inputs_ok_env : forall W fuel root name d id p xin r c,
        /\ x_has_unknown xin = false
        /\ fst (validate (AccIn (pv_in pv)) iv) = true
        /\ x_is_obj xin = true.
-Proof. exact open_inputs_ok. Qed.
+Proof. exact open_inputs_ok_named. Qed.
+
+(* what the MODEL answers for a root named "<yaml>": the provider of an imported environment is told "<yaml>", where
+   eval.EvalEnvironment tells it "imp" - the reason for the hypothesis above *)
+Example C05_yaml_root_model_deviation :
+  ob_log (run 30 W_yaml "<yaml>" d_yaml)
+  = [EvLoad "imp"; EvLoadProvider "q"; EvOpen ("imp", [IKey "b"]) "q" (XObj false false []) "<yaml>" "imp"].
+Proof. exact yaml_root_model_deviation. Qed.
 
 (* expression level: evaluating an expression that sits in environment context [E] (id rooted at ec_name E)
    from ANY state only prepends events; each new one is a LoadProvider, an Open with r = ec_root E,
@@ -99,22 +110,66 @@ Theorem C05_id_extend_inj : forall (id : eid) (a b : idstep),
   (fst id, snd id ++ [a]) = (fst id, snd id ++ [b]) -> a = b.
 Proof. exact id_extend_inj. Qed.
 
-(* ---- load_at_most_once, for EVERY fault plan: the loads that succeed (not the faulted call, loader returns a
-   parsed definition) have pairwise distinct names ---- *)
-Theorem C05_load_at_most_once : forall W fuel root name d,
+(* ---- load_at_most_once ----
+   The property: "each imported environment is loaded at most once per evaluation, however many references or import
+   paths lead to it".  Full statement: the names of ALL LoadEnvironment calls of an evaluation are pairwise distinct. *)
+Definition C05_load_at_most_once_statement : Prop :=
+  forall W fuel root name d, NoDup (all_loads (log (snd (eval_env W fuel root name d st0)))).
+
+(* it is FALSE of the model and of the code (known finding C05-failed-load-retried): eval.evaluateImport leaves all three
+   error exits (loader error, parse diagnostics, nil environment) before the name reaches e.imports, so a failing import
+   is loaded again by every further listing and through every further import path; witness: ("bad", unparsable),
+   imports [bad; bad; bad], no fault plan - three loads *)
+Theorem C05_load_at_most_once_refuted : ~ C05_load_at_most_once_statement.
+Proof. exact load_at_most_once_refuted. Qed.
+
+Example C05_retried_load_logs :
+  ob_log (run 30 W_badimport "root" d_triple_bad) = [EvLoad "bad"; EvLoad "bad"; EvLoad "bad"]
+  /\ ob_log (run 30 W_twopaths "root" d_twopaths) = [EvLoad "a"; EvLoad "bad"; EvLoad "b"; EvLoad "bad"]
+  /\ retried_failed W_badimport (log (snd (eval_env W_badimport 30 "" "root" d_triple_bad st0))) = true
+  /\ retried_failed W_twopaths (log (snd (eval_env W_twopaths 30 "" "root" d_twopaths st0))) = true.
+Proof. exact retried_load_logs. Qed.
+
+(* ... and TRUE outside the decidable class [retried_failed] (some load that failed - loader error, unparsable
+   definition, or the faulted call - has its name loaded again), for EVERY fault plan *)
+Theorem C05_load_at_most_once_partial : forall W fuel root name d,
+  retried_failed W (log (snd (eval_env W fuel root name d st0))) = false ->
+  NoDup (all_loads (log (snd (eval_env W fuel root name d st0)))).
+Proof. exact load_at_most_once_partial. Qed.
+
+(* inside the class the statement fails by definition of the class: it is exact *)
+Theorem C05_load_class_exact : forall W l, retried_failed W l = true -> ~ NoDup (all_loads l).
+Proof. exact class_not_once. Qed.
+
+(* the discipline behind both: a load that is followed by another load of the same name (the log is newest first:
+   [a] is what came later) was a FAILED one - nothing is ever loaded again after a successful load *)
+Theorem C05_reload_only_after_failure : forall W fuel root name d a n b,
+  log (snd (eval_env W fuel root name d st0)) = a ++ EvLoad n :: b ->
+  In n (all_loads a) ->
+  (ok_load W n && negb (fault_at W (N.of_nat (length b)))) = false.
+Proof. exact reload_only_after_failure. Qed.
+
+(* for EVERY fault plan: the loads that succeed (not the faulted call, loader returns a parsed definition) have
+   pairwise distinct names *)
+Theorem C05_load_at_most_once_successful_partial : forall W fuel root name d,
   NoDup (succ_loads W (log (snd (eval_env W fuel root name d st0)))).
 Proof. exact load_at_most_once. Qed.
 
-Theorem C05_load_at_most_once_no_fault : forall W fuel root name d,
+Theorem C05_load_at_most_once_no_fault_partial : forall W fuel root name d,
   w_fault W = None -> NoDup (ok_loads W (log (snd (eval_env W fuel root name d st0)))).
 Proof. exact load_at_most_once_no_fault. Qed.
 
 Theorem C05_run_open_at_most_once : forall fuel W name d, NoDup (open_ids (ob_log (run fuel W name d))).
 Proof. exact run_open_at_most_once. Qed.
 
-Theorem C05_run_load_at_most_once_no_fault : forall fuel W name d,
+Theorem C05_run_load_at_most_once_no_fault_partial : forall fuel W name d,
   w_fault W = None -> NoDup (ok_loads W (ob_log (run fuel W name d))).
 Proof. exact run_load_at_most_once_no_fault. Qed.
+
+Theorem C05_run_load_at_most_once_partial : forall fuel W name d,
+  retried_failed W (log (snd (eval_env W fuel "" name d st0))) = false ->
+  NoDup (all_loads (ob_log (run fuel W name d))).
+Proof. exact run_load_at_most_once_partial. Qed.
 
 (* ---- the log is a log: evaluation only prepends; one logged event per collaborator call ---- *)
 Theorem C05_log_monotone : forall W fuel, all_six W fuel mono.
@@ -141,11 +196,12 @@ Theorem C05_matched_opens_ok : forall fuel W name d lg p i r c,
   /\ x_has_unknown i = false
   /\ x_is_obj i = true
   /\ (exists pv, alookup p (w_provs W) = Some pv)
-  /\ (name <> "" -> r = name)
+  /\ (name <> "" -> name <> "<yaml>" -> r = name)
   /\ (c = name \/ In (OLoad c) lg).
-Proof. exact matched_opens_ok. Qed.
+Proof. exact matched_opens_ok_named. Qed.
 
-Theorem C05_matched_loads_once : forall fuel W name d lg n,
+(* successful loads only (see C05_load_at_most_once_refuted for all loads) *)
+Theorem C05_matched_loads_once_partial : forall fuel W name d lg n,
   w_fault W = None -> ok_load W n = true ->
   log_matches (ob_log (run fuel W name d)) lg = true ->
   In (OLoad n) lg ->
